@@ -21,13 +21,13 @@ CHECKS = {
    text="File-passing programs under rolling/post/strict VDR: every consumer probe stats and reads every path named in its own arguments when it starts (content tokens identify the producer's file); at completion every top-level file output and retained file must carry the producer's token. Sampled programs/schedules.",
    ref="3 C04"),
  "C05": dict(level="fault_enumeration", tech="fault injection: crash (SIGKILL/SIGTERM/SIGINT) at enumerated hook points and job-side points, restart, compare with uninterrupted baseline",
-   text="The baseline run of each program yields the ordered list of mrp hook hits between filesystem effects; crash specs (point, occurrence, signal) are enumerated (all points for small programs in the thorough tier, stratified by point class otherwise), plus job-side kills of mrp and double crashes. After restart(s): exit 0, outputs and outs/ tokens equal the baseline, no job with a completion marker older than the interruption starts again, no _lock after a handled signal.",
+   text="The baseline run of each program yields the ordered list of mrp hook hits between filesystem effects; crash specs (point, occurrence, signal) are enumerated (all points for small programs in the thorough tier, stratified by point class otherwise), plus job-side kills of mrp and double crashes. After restart(s): exit 0, outputs and outs/ tokens equal the baseline, no job with a completion marker older than the interruption starts again, no _lock after a handled signal. The job monitor (mrjob) also signals mrp from its own hook points just before / just after it records a job's completion, so that the monitor itself is signalled by mrp's death inside that window.",
    ref="3 C05"),
  "C06": dict(level="fault_enumeration", tech="fault injection: every job x failure manifestation via the probe's behaviour file, then fault removal and restart",
-   text="Every job of a program as failure site x manifestation (error pipe, ASSERT, exit codes, SIGSEGV/SIGKILL of stage or mrjob, truncated/missing/ill-typed outs, bad _stage_defs), one-shot or repeated, autoretry 0|2: mrp must fail without claiming success, name the stage, start no dependent job, and after fault removal complete with the baseline result without redoing completed work.",
+   text="Every job of a program as failure site x manifestation (error pipe, ASSERT, exit codes, SIGSEGV/SIGKILL of stage or mrjob, truncated/missing/ill-typed outs, bad _stage_defs), one-shot or repeated, autoretry 0|2: mrp must fail without claiming success, name the stage, start no dependent job, and after fault removal complete with the baseline result without redoing completed work. Preflight calls get directed faults (everything else in the pipeline, nested at any depth, depends on them); a fraction of the stages run through the real Python adapter with Python-only failure modes.",
    ref="3 C06"),
  "C13": dict(level="exploration", tech="runtime monitoring: end-state checker of outs/ and the post-processed _outs against a pre-post-processing snapshot",
-   text="Top-level signatures of every container nesting with nulls, never-written files, explicit out names and duplicate references: the outs/ path of every file leaf is re-derived from name/type/outname and must carry the producer's content token; the post-processed _outs must be valid JSON of the same shape with non-file values unchanged.",
+   text="Top-level signatures of every container nesting with nulls, never-written files, explicit out names and duplicate references: the outs/ path of every file leaf is re-derived from name/type/outname and must carry the producer's content token; the post-processed _outs must be valid JSON of the same shape with non-file values unchanged. Explicit out names that clash with a sibling's default file name must be rejected before anything runs or else be materialised faithfully.",
    ref="3 C13"),
  "C14": dict(level="exploration", tech="runtime monitoring: removal inventories taken by a hook just before each os.RemoveAll, compared with kill reports and the final tree",
    text="With VDR on: no executed job's tmp directory, no chunk-level file of a splitting stage and no unretained file of a volatile stage survives; listed paths are gone; per-fork and pipestance report count/size equal the sum of the hook's own lstat inventories; every vanished file is covered by a removal inside the pipestance; a canary beside it is untouched.",
@@ -43,7 +43,7 @@ CHECKS.update({
    text="Soundness: compiler-accepted generated programs over the whole type language run by the real mrp with --strict=error and type-conforming probe outputs; any run-time binding/validation error or crash, or any delivered argument failing the harness's own type validator, is a violation. Completeness: single-point ill-typed mutations of valid programs must be rejected by the real compiler with an error positioned inside the mutated call statement.",
    ref="3 C07"),
  "C08": dict(level="exploration", tech="hostile-input campaign in child processes (crash = violation with the input on disk), allocation-based proportionality monitor", note=SRC_NOTE,
-   text="Token-level mutants of generated and repository MRO sources (numbers at/over int64/float32/float64 range, every escape form, empty strings, keywords as identifiers, truncations, invalid UTF-8), expression mutants, random bytes and scaling families are fed to ParseSourceBytes / UncheckedParse / FormatSrcBytes / ParseValExp in child processes: a crash, an error without source position, neither tree nor error, or super-linear allocation growth is a violation.",
+   text="Token-level mutants of generated and repository MRO sources (numbers at/over int64/float32/float64 range, every escape form, empty strings, keywords as identifiers, truncations, invalid UTF-8), expression mutants, random bytes and scaling families are fed to ParseSourceBytes / UncheckedParse / FormatSrcBytes / ParseValExp in child processes: a crash, an error without source position, neither tree nor error, or super-linear allocation growth is a violation. An input that hits the progress watchdog is re-run alone under RLIMIT_CPU: using up 20 CPU-seconds on one input is a verdict (CPU time consumed, not wall clock).",
    ref="3 C08"),
  "C09": dict(level="exploration", tech="round-trip monitoring of the real formatter with an independent reflection-based AST comparison and tracked comments", note=SRC_NOTE,
    text="Generated multi-file programs with every literal form and optional clause, surface syntax randomised with tracked comments: Format output must re-parse to a structurally equal tree, lose no comment, be a fixed point when all comments precede elements, compile to the same callables/call graph, and the include-expanded rendering must compile standalone to the same.",
@@ -52,7 +52,7 @@ CHECKS.update({
    text="Programs with wide map/struct literals, typed-map map calls, retains and multi-error variants: formatted text, include-expanded source, error text, call-graph JSON/GoString and AST JSON must be byte-identical over R repetitions in P processes (an unsorted map traversal survives R*P draws with probability <= 2^-(RP-1)); two mrp runs of one program must give identical listings and per-fork _invocation bytes.",
    ref="3 C10"),
  "C11": dict(level="exploration", tech="key-space exploration through tag-guarded wrappers around the real fork-name / journal-name / journal-parse code + adversarial-key pipestances", note=FLOW_NOTE,
-   text="Random nestings of map/array dimensions with adversarial keys and boundary lengths: all forks of a call get pairwise distinct directory and journal names and every journal file name routes back to exactly its (fork, chunk, attempt, file); pipestances mapped over adversarial key pools complete without dataflow/exactly-once findings or journal warnings.",
+   text="Random nestings of map/array dimensions with adversarial keys and boundary lengths: all forks of a call get pairwise distinct directory and journal names and every journal file name routes back to exactly its (fork, chunk, attempt, file); pipestances mapped over adversarial key pools complete without dataflow/exactly-once findings or journal warnings. Lost-but-alive jobs: a leftover of a killed first attempt reports completion under the superseded attempt's journal name while the retry is running; it must be dropped (nothing may consume the job's outputs before the replacing attempt has ended).",
    ref="3 C11"),
  "C12": dict(level="exploration", tech="race-detector build + porcupine linearizability checking of recorded client-boundary histories + sequential differential driver", note="Trusted base: porcupine v1.3.0, the sequential reference models in cmd/vh/check_c12.go, the Go race detector. The real core.ResourceSemaphore / MaxJobsSemaphore / job managers are driven through their exported API.",
    text="Concurrent random Acquire/Release/Update*/getter histories on the real ResourceSemaphore and MaxJobsSemaphore are recorded at the client boundary and checked against sequential models with porcupine (Unknown = inconclusive); a sequential driver checks FIFO grants, exact getters and no lost wake-up against a reference queue; request normalisation is checked against the configured limits; the check binary is built with -race and reports in the semaphore files are violations.",
